@@ -163,8 +163,11 @@ def _subsec_cases(rng, x, z, lon, lat, t, D, Tm):
 def build(roles, vary=None, how=None, func=None):
     """kwargs for the baseline, or with input `vary` rendered in carrier `how`; None if not applicable."""
     kw = {}
+    joint = vary if isinstance(vary, dict) else None  # {input name: carrier}: several inputs rendered at once
     for name, (kind, val) in roles.items():
-        mine = name == vary
+        mine = name == vary or (joint is not None and name in joint)
+        if joint is not None and name in joint:
+            how = joint[name]
         if kind in ("data", "aux", "data-nomissing"):
             c = how if mine else "baseline"
             if c == "f32" and kind != "aux" and any(v is not None and float(np.float32(v)) != v for v in val):
@@ -306,6 +309,36 @@ def run(ctx) -> None:
                         ctx.violation(f"C15:refilled-{how}-container:flags-differ:{func}",
                                       {"kind": "carrier-group", "mode": mode, "carrier": how + " (same object refilled in place)",
                                        "case": logical, "new_times": tnew, "refilled": o_re.brief(), "fresh": o_fr.brief()})
+            # several inputs in the same non-default representation at once (all chunked, all pandas with unrelated row
+            # labels, all masked, ...): inputs are paired by position, whatever their containers
+            dnames = [k for k, (kind, _v) in roles.items() if kind in ("data", "aux", "data-nomissing")]
+            joints = []
+            if len(dnames) + len(tnames) >= 2:
+                for dh in ("dask", "series-shifted", "series", "masked-finite", "list-none", "f32"):
+                    jv = {k: dh for k in dnames}
+                    for tn_ in tnames:
+                        jv[tn_] = "series" if dh.startswith("series") else rng.choice(["dt64ns", "epoch-int", "dtindex"])
+                    joints.append((dh, jv))
+            for dh, jv in joints:
+                kw = build(roles, vary=jv, func=func)
+                if kw is None:
+                    continue
+                if dh == "series":
+                    for tn_ in tnames:  # the time Series keeps the row labels of some larger frame it was cut from
+                        if isinstance(kw.get(tn_), pd.Series):
+                            kw[tn_] = pd.Series(kw[tn_].to_numpy(), index=range(100, 100 + len(kw[tn_])))
+                o = client.invoke(func, kw)
+                ctx.count("c15.members_compared")
+                ctx.count("c15.joint_carrier_members")
+                ctx.case(f"{mode}|joint|{dh}|{gen.flagset(o) if o.kind == 'raise' else ''.join(sorted(set(map(str, bflags))))}")
+                if o.kind == "raise":
+                    ctx.violation(f"C15:joint-{dh}:raised:{func}:{o.exc_type}@{o.where}",
+                                  {"kind": "carrier-group", "mode": mode, "varied": jv, "carrier": "joint " + dh, "case": logical,
+                                   "baseline_flags": bflags, "observed": o.brief()})
+                elif o.flags.reshape(-1).tolist() != bflags or o.masked.any():
+                    ctx.violation(f"C15:joint-{dh}:flags-differ:{func}",
+                                  {"kind": "carrier-group", "mode": mode, "varied": jv, "carrier": "joint " + dh, "case": logical,
+                                   "baseline_flags": bflags, "observed": o.brief()})
             for name, how in variants:
                 kw = build(roles, vary=name, how=how, func=func)
                 if kw is None:
